@@ -7,19 +7,22 @@
 (*  - calls that change nothing but the call counter (an ErrUnknownCircuit answer, an empty    *)
 (*    trim, an all-drops commit) are skipped: the same state with a smaller counter has more   *)
 (*    budget left and subsumes them.                                                           *)
-(*  - a channel becomes fully closed / a resolution message is stored only while no call is    *)
+(*  - a channel becomes fully closed / leaves the default status / a resolution message is     *)
+(*    stored only while no call is                                                             *)
 (*    in flight and a crash can still follow: both commute with every step of a thread (they   *)
 (*    are read by NewCircuitMap and by caller-assumption guards only).                         *)
 EXTENDS CircuitMap
 ThrView(t) == [op |-> thr[t].op, pc |-> thr[t].pc, a |-> thr[t].a, af |-> thr[t].af,
                rem |-> thr[t].rem, cl |-> thr[t].cl, ks |-> thr[t].ks]
 View == <<dAdds, dKeys, pending, opened, closed, mode, trimTodo, [t \in Threads |-> ThrView(t)],
-          closedChans, resMsgs, nextIdx, addsCount, respCount,
+          closedChans, chanStatus, resMsgs, nextIdx, addsCount, respCount,
           IF fresh \/ mode # "up" THEN snap ELSE <<>>, fresh, nops, ncrash, nfail>>
-core == <<dAdds, dKeys, pending, opened, closed, mode, trimTodo, thr, closedChans, resMsgs,
+core == <<dAdds, dKeys, pending, opened, closed, mode, trimTodo, thr, closedChans, chanStatus, resMsgs,
           nextIdx, addsCount, respCount, ncrash, nfail>>
 MCNext == /\ Next
           /\ core' # core
-          /\ (closedChans' # closedChans \/ resMsgs' # resMsgs) => (Quiet /\ ncrash < MaxCrash)
+          /\ (closedChans' # closedChans \/ resMsgs' # resMsgs \/ chanStatus' # chanStatus) => (Quiet /\ ncrash < MaxCrash)
+          \* "borked" and "commitbc" are indistinguishable to the model: one of them suffices
+          /\ \A c \in OutChans : chanStatus'[c] # "commitbc"
 MCSpec == Init /\ [][MCNext]_vars
 ====
